@@ -123,7 +123,11 @@ def run(alg: str, q: dict, p: dict, shared: dict = None):
             warnings.simplefilter("ignore")
             if alg == "cp_als":
                 init = same_object("k", lambda: ttb.ktensor([a.copy() for a in st], np.ones(ranks))) if p["start"] == "given" else "random"
-                M, _, out = ttb.cp_als(X, ranks, stoptol=0.0, maxiters=q["maxiters"], dimorder=order, init=init, printitn=prn)
+                kw = {}
+                if q.get("fixed", -1) >= 0:
+                    # one mode (named in the original labelling) is held fixed: the optimised modes in the relabelled problem
+                    kw["optdims"] = np.array([inv[m] for m in range(N) if m != q["fixed"]], dtype=int)
+                M, _, out = ttb.cp_als(X, ranks, stoptol=0.0, maxiters=q["maxiters"], dimorder=order, init=init, printitn=prn, **kw)
                 full, fit, iters = np_full_k(M.weights, M.factor_matrices), out["fit"], out["iters"]
             elif alg.startswith("cp_apr"):
                 init = same_object("k", lambda: ttb.ktensor([a.copy() for a in st], np.ones(ranks))) if p["start"] == "given" else "random"
@@ -257,6 +261,7 @@ def main(tier: str) -> int:
                                  "zero_row": bool((mi + si + rep) % 3 != 0 and alg.startswith("cp_apr")),
                                  "stoptime0": bool((mi + si + rep) % 2 == 1 and alg.startswith("cp_apr")),
                                  "sparse_mode": bool((mi + si + rep) % 2 == 0 and alg == "cp_als"),
+                                 "fixed": ((mi + si + rep) % len(shape) if (alg == "cp_als" and len(shape) >= 3 and (mi + rep) % 2 == 1) else -1),
                                  "tol": [0.3, 0.05, 0.6][mi % 3], "sequential": bool((mi + rep) % 2)}
                             behaviours.append({"alg": alg, "q": q, "start": start, "pres": pres})
     # long L-BFGS-B runs (stopped by a convergence test, not by the iteration limit): a fresh option object against one
